@@ -229,8 +229,29 @@ namespace
                 {
                     Built<G> wb = build_graph(grid, c.prog, c.p);
                     configure(*wb.fg, c);
+                    // the earlier update also ran with another base-level set of the same size
+                    // (every member moved to the next node), then the set of this world is put
+                    // back: what counts is the set in force at the judged call
+                    auto actual_base = wb.fg->base_levels();
+                    {
+                        std::set<std::size_t> decoy;
+                        bool unmasked_member = false;
+                        for (auto bi : actual_base)
+                        {
+                            std::size_t dn = (bi + 1) % s.n;
+                            decoy.insert(dn);
+                            if (!(c.has_mask && c.mask[dn]))
+                                unmasked_member = true;  // stays inside the documented domain
+                        }
+                        if (decoy.size() == actual_base.size() && unmasked_member)
+                        {
+                            wb.fg->set_base_levels(std::vector<typename decltype(actual_base)::value_type>(decoy.begin(), decoy.end()));
+                            ctx.rep.hit("reused-graph-with-other-base-levels-before");
+                        }
+                    }
                     auto other = make_field(grid, c.elev2);
                     wb.fg->update_routes(other);
+                    wb.fg->set_base_levels(actual_base);
                     auto again = make_field(grid, c.elev);
                     const auto& wout = wb.fg->update_routes(again);
                     ctx.rep.ops += 2;
